@@ -16,6 +16,18 @@ Theorem C23_rt_pk2_cauchy_full : forall a b : nat -> R,
 Proof. intros a b; exact (rt_pk2_cauchy_3_ok a b). Qed.
 Print Assumptions C23_rt_pk2_cauchy_full.
 
+Theorem C23_corot_to_pk2_full : forall a b : nat -> R,
+  (det2 (full_s 2%nat b) <> 0 -> corot_to_pk2_2 a b = flat_s 2%nat (spec_corot_to_pk2 2%nat (full_s 2%nat a) (full_s 2%nat b))) /\
+  (det2 (full_s 3%nat b) <> 0 -> corot_to_pk2_3 a b = flat_s 3%nat (spec_corot_to_pk2 3%nat (full_s 3%nat a) (full_s 3%nat b))).
+Proof. intros a b; exact (conj (corot_to_pk2_2_ok a b) (corot_to_pk2_3_ok a b)). Qed.
+Print Assumptions C23_corot_to_pk2_full.
+
+Theorem C23_pk2_to_corot_full : forall a b : nat -> R,
+  (det2 (full_s 2%nat b) <> 0 -> pk2_to_corot_2 a b = flat_s 2%nat (spec_pk2_to_corot 2%nat (full_s 2%nat a) (full_s 2%nat b))) /\
+  (det2 (full_s 3%nat b) <> 0 -> pk2_to_corot_3 a b = flat_s 3%nat (spec_pk2_to_corot 3%nat (full_s 3%nat a) (full_s 3%nat b))).
+Proof. intros a b; exact (conj (pk2_to_corot_2_ok a b) (pk2_to_corot_3_ok a b)). Qed.
+Print Assumptions C23_pk2_to_corot_full.
+
 Theorem C23_SPATIAL_MODULI_from_DS_DEGL_full : forall a b c d : nat -> R,
   (SPATIAL_MODULI_from_DS_DEGL_3 a b c d = flat_A 3%nat (spec_SPATIAL_MODULI_from_DS_DEGL 3%nat (full_A 3%nat a) (full_t 3%nat b) (full_t 3%nat c) (full_s 3%nat d))).
 Proof. intros a b c d; exact (SPATIAL_MODULI_from_DS_DEGL_3_ok a b c d). Qed.
